@@ -1469,6 +1469,111 @@ fn explore(host: HostKind, b: &Bounds, cap: usize, limit_s: f64) -> Closure {
     c
 }
 
+/// Scripted scale family: an explicit list of LONG paths (hundreds to thousands of steps) over the
+/// same alphabet, each executed once on one live host, gauges compared with the reference at the
+/// stated checkpoints (peak of outstanding work, end). Constants in the code (slab capacities of
+/// 1024, id thresholds of 64 / 128, channel capacities) are out of reach of the closure, whose
+/// shortest paths are a dozen steps long. Enumeration of a stated list, not sampling.
+fn scale_paths(host: HostKind) -> Vec<(&'static str, Vec<Act>, Vec<usize>)> {
+    let mut v: Vec<(&'static str, Vec<Act>, Vec<usize>)> = vec![];
+    let rep = |a: &[Act], n: usize| -> Vec<Act> { (0..n).flat_map(|_| a.iter().copied()).collect() };
+    for n in [130usize, 1100] {
+        // n one-shots outstanding at once, answered oldest first / newest first
+        let mut p = rep(&[Act::ReqC], n);
+        p.extend(rep(&[Act::Respond(0)], n));
+        v.push(("burst of command-API one-shots, answered oldest first", p, vec![n, 2 * n]));
+        let mut p = rep(&[Act::ReqC], n);
+        p.extend((0..n).rev().map(Act::Respond));
+        v.push(("burst of command-API one-shots, answered newest first", p, vec![n, 2 * n]));
+    }
+    // a long history with little outstanding work at any time
+    v.push(("one-shot issued and answered 1500 times", rep(&[Act::ReqC, Act::Respond(0)], 1500), vec![3000]));
+    v.push(("join-handle programs issued and answered 300 times", rep(&[Act::ReqJ, Act::Respond(0)], 300), vec![600]));
+    v.push(("one outstanding one-shot kept while 1200 others come and go", {
+        let mut p = vec![Act::ReqC];
+        p.extend(rep(&[Act::ReqC, Act::Respond(1)], 1200));
+        p.push(Act::Respond(0));
+        p
+    }, vec![2401, 2402]));
+    // a subscription fed with many items, ended, and subscribed again
+    v.push(("subscription: 300 items, unsubscribe, late item", {
+        let mut p = vec![Act::Sub];
+        p.extend(rep(&[Act::Item], 300));
+        p.push(Act::Unsub);
+        p.push(Act::Item);
+        p
+    }, vec![301, 303]));
+    // timers come and go: ids grow past 64 / 128 / 256
+    v.push(("command-API timer set and fired 300 times", rep(&[Act::CTimerSet, Act::CTimerFire], 300), vec![600]));
+    v.push(("command-API timer set, cleared, clear answered, orphan fired 150 times", rep(&[Act::CTimerSet, Act::CTimerClear, Act::CTimerCleared, Act::CTimerFire], 150), vec![600]));
+    if host != HostKind::Direct {
+        for n in [130usize, 1100] {
+            let mut p = rep(&[Act::ReqL], n);
+            p.extend((0..n).rev().map(Act::Respond));
+            v.push(("burst of legacy-API one-shots, answered newest first", p, vec![n, 2 * n]));
+        }
+        v.push(("legacy one-shot issued and answered 1500 times", rep(&[Act::ReqL, Act::Respond(0)], 1500), vec![3000]));
+        v.push(("legacy timer set and fired 300 times", rep(&[Act::LTimerSet, Act::LTimerFire], 300), vec![600]));
+        v.push(("legacy timer set, cleared while live, fired 300 times", rep(&[Act::LTimerSet, Act::LTimerClear, Act::LTimerFire], 300), vec![900]));
+        v.push(("legacy request futures never polled, 400 times", rep(&[Act::LReqUnpolled, Act::LSelUnpolled], 200), vec![400]));
+        v.push(("mixed: legacy and command one-shots interleaved with timers, 200 rounds", rep(&[Act::ReqL, Act::ReqC, Act::CTimerSet, Act::Respond(1), Act::CTimerFire, Act::Respond(0)], 200), vec![1200]));
+    }
+    v
+}
+
+#[derive(Serialize, Deserialize, Default)]
+struct ScaleOut {
+    members: usize,
+    steps: u64,
+    max_outstanding: usize,
+    /// (key, what, replay)
+    violations: Vec<(String, String, serde_json::Value)>,
+}
+
+fn scale_bounds() -> Bounds {
+    Bounds { max_oneshots: 100_000, sat: 1, drop_legacy: true, full_alphabet: true }
+}
+
+fn run_scale(host: HostKind) -> ScaleOut {
+    let b = scale_bounds();
+    let mut out = ScaleOut::default();
+    for (name, path, checkpoints) in scale_paths(host) {
+        // every step of a scripted path must be one the reference allows at that point
+        {
+            let mut rf = Ref::new();
+            let mut hist = Hist::default();
+            for (i, a) in path.iter().enumerate() {
+                if !rf.enabled(host, &b).contains(a) {
+                    mc_kit::machinery_error(&format!("C13 scale member `{name}`: step {i} ({a:?}) is not enabled in the reference"));
+                }
+                rf.step(*a, &mut hist, &b);
+                out.max_outstanding = out.max_outstanding.max(rf.oneshots.len());
+            }
+        }
+        out.members += 1;
+        for cp in checkpoints {
+            let o = run_path(host, &path[..cp], &b, false);
+            out.steps += cp as u64;
+            let mut stop = false;
+            for f in o.found.iter().filter(|f| !f.projectable) {
+                if !out.violations.iter().any(|(k, _, _)| *k == f.key) {
+                    out.violations.push((
+                        f.key.clone(),
+                        format!("{host:?} host, scripted scale member `{name}`, after {cp} steps: {}", f.what),
+                        json!({"engine": "closure", "host": host, "path": &path[..cp], "scale_member": name,
+                               "bounds": {"max_oneshots": b.max_oneshots, "saturation": b.sat, "drop_legacy": b.drop_legacy}}),
+                    ));
+                }
+                stop = true;
+            }
+            if stop {
+                break;
+            }
+        }
+    }
+    out
+}
+
 fn host_name(h: HostKind) -> &'static str {
     match h {
         HostKind::Bridge => "Bridge",
@@ -1492,6 +1597,11 @@ pub fn host_child(args: &[String]) -> i32 {
         drop_legacy: !args.iter().any(|a| a == "--no-drop-legacy"),
         full_alphabet: args.iter().any(|a| a == "--full-alphabet"),
     };
+    if args.iter().any(|a| a == "--scale") {
+        let o = run_scale(host);
+        std::fs::write(get("--out").expect("--out"), serde_json::to_vec(&o).unwrap()).expect("write");
+        return 0;
+    }
     let cap = get("--cap").and_then(|s| s.parse().ok()).unwrap_or(60_000);
     let limit = get("--limit").and_then(|s| s.parse().ok()).unwrap_or(45.0);
     let c = explore(host, &b, cap, limit);
@@ -1665,7 +1775,35 @@ pub fn run(tier: Tier, args: &[String]) -> i32 {
     }
     let limit = tier.pick(45.0, 780.0);
     // one process per (bounds, host), concurrently
+    // the scripted scale family runs next to the closures, one process per host
+    let scale_children: Vec<(std::process::Child, std::path::PathBuf, HostKind)> = [HostKind::Direct, HostKind::Core, HostKind::Bridge]
+        .into_iter()
+        .map(|h| {
+            let out = std::env::temp_dir().join(format!("mc-bridge-c13-scale-{}-{}.json", std::process::id(), host_name(h)));
+            let child = std::process::Command::new(std::env::current_exe().expect("current_exe"))
+                .args(["C13-host", "--scale", "--host", host_name(h)])
+                .arg("--out")
+                .arg(&out)
+                .spawn()
+                .unwrap_or_else(|e| mc_kit::machinery_error(&format!("C13: cannot start a scale process: {e}")));
+            (child, out, h)
+        })
+        .collect();
     let all = explore_in_processes(&configs, cap, limit);
+    let mut scale_info = vec![];
+    for (mut child, out, h) in scale_children {
+        let ok = child.wait().map(|s| s.success()).unwrap_or(false);
+        let bytes = std::fs::read(&out).unwrap_or_default();
+        let _ = std::fs::remove_file(&out);
+        let Some(o) = serde_json::from_slice::<ScaleOut>(&bytes).ok().filter(|_| ok) else {
+            mc_kit::machinery_error("C13: a scale process failed");
+        };
+        for (key, what, replay) in &o.violations {
+            rep.violation(Violation { key: key.clone(), what: what.clone(), replay: replay.clone(), size: 1_000 });
+        }
+        scale_info.push(json!({"host": host_name(h), "scripted_paths": o.members, "steps_executed": o.steps, "max_outstanding_one_shots": o.max_outstanding,
+            "violations": o.violations.len()}));
+    }
     for (_, _, c) in &all {
         for (key, what, replay, size, n) in &c.violations {
             for _ in 0..(*n).min(3) {
@@ -1730,6 +1868,7 @@ pub fn run(tier: Tier, args: &[String]) -> i32 {
         "state_cap": cap,
         "hosts": hosts_json,
         "action_alphabet": "ReqC (Command-API one-shot), ReqL (legacy one-shot), ReqJ (task: spawn(child awaiting a shell request); join_handle.await; event), ReqT (request.then_stream(finite local stream).then_send), ReqU (request.then_stream consumed by hand inside Command::new), ReqV (request.then_request.then_stream.then_send) - each with answer and drop / undecodable answer at every position, ReqSA0 / ReqSA (spawn-then-self-abort: a task ctx.spawn()s a child capturing a token and calls its own command's AbortHandle in one poll while a sibling task is queued behind it in the same pass - immediately, or after a request whose answer also wakes the sibling), ReqS (one task awaiting select over two shell requests), ReqA (self-aborting command: task B request -> event, task A request -> the command's own AbortHandle, no output), Respond(k) for every outstanding one-shot k (also the orphaned member of a finished select), BadAnswer(k): an undecodable answer to the k-th outstanding one-shot on the Bridge host (must be rejected; the request is used up; followed by one no-op event), Drop(k): the shell drops the k-th outstanding one-shot unresolved (Command-API requests on both hosts, legacy requests on the typed-Core host) (direct and typed-Core hosts; on the Core host followed by one no-op event = one further core call; the bridge cannot drop), Sub, Unsub (AbortHandle kept in the model), Item (stream item; also after unsubscribe and after the task ended), Render, CTimerSet / CTimerClear (TimerHandle) / CTimerFire (answer NotifyAfter, also the orphaned one) / CTimerCleared (answer Clear), LTimerSet / LTimerClear (also after the timer finished) / LTimerFire; legacy request futures that are created and never polled: LReqUnpolled (built, not awaited, event, end), LSelUnpolled (select(ready, request)), LTimerSetCleared (notify_after + clear(id) in one update through a mapped Time capability whose mapping closure owns a token) - none leaves outstanding work; after EVERY explored path the host is dropped",
+        "scripted_scale_family": {"what": "explicit list of long paths over the same alphabet (bursts of 130 / 1100 outstanding one-shots answered in both orders, 1500 issue-answer rounds, 300 stream items, 150-300 timer rounds, never-polled legacy futures, mixed rounds), each executed on one live host per checkpoint and judged by the same gauge oracle at the peak and at the end; enumeration of a stated list, not sampling", "per_host": scale_info},
         "app_bounds": {"configurations (max outstanding one-shots, counters saturate at)": configs.iter().map(|c| (c.max_oneshots, c.sat)).collect::<Vec<_>>(), "live_subscriptions": 1, "command_api_timers": 1, "legacy_timers": 1},
         "state_key": "(reference: outstanding one-shots with their API in issue order, subscription phase, timer phases, expected view; gauges: registry once/many entries, executor task slots | live commands, sum of Command::verif_live_tasks, queued spawns/wake-ups/effects/events, cleared-timer-set size relative to the start of the path, live drop-tokens). Projected out because a listed finding makes them unbounded (each reported): `Never` registry entries (K3), cleared-set ids of timers cleared after they finished (K4), executor slots and tokens of legacy tasks whose request was dropped (accepted only when exactly one slot per dropped legacy request is stuck)",
         "oracle": "in every reachable state: registry once <= outstanding one-shot requests the shell holds, many <= subscriptions the shell has not been told are finished, never == 0; executor tasks / live commands / command tasks <= live pieces of work; cleared set <= cleared pending timers; live tokens <= tokens owned by live tasks (+ payloads of requests the harness holds); all queues empty after the call; after dropping the host 0 tokens; view == reference view; gauge BELOW the reference = reference error, reported under reference/*",
